@@ -272,6 +272,20 @@ def resetup_case(rng):
             'ds': rng.random() < 0.3}
 
 
+def subset_case(rng):
+    nr, nb, nz = rng.randrange(2, 6), rng.randrange(2, 6), rng.randrange(1, 3)
+    mk = lambda m: [[rng.randrange(1, 5) if (r % m == c or rng.random() < 0.2) else 0 for c in range(m)]
+                    for r in range(nr)]
+    hb = rng.randrange(1, 5)
+    hz = rng.choice([h for h in range(0, 5) if h != hb])
+    pts = [{'b0': [rng.choice([-3, -2, -1, 1, 2, 3]) for _ in range(nb)],
+            'b1': [rng.choice([-3, -2, -1, 1, 2, 3]) for _ in range(nb)],
+            'z': [rng.choice([-2, -1, 1, 2]) for _ in range(nz)]} for _ in range(rng.randrange(1, 3))]
+    return {'kind': 'partial_subset', 'B0': mk(nb), 'B1': mk(nb), 'Cz': mk(nz), 'hb': hb, 'hz': hz,
+            'fb': rng.choice(['forward', 'backward', 'central']), 'fz': rng.choice(['forward', 'backward', 'central']),
+            'order': rng.randrange(2), 'points': pts}
+
+
 class C03(Spec):
     pid = 'C03'
     imports = ['C03.Model']
@@ -294,7 +308,8 @@ class C03(Spec):
             '(inputs exactly 0, vanishing derivatives) and re-linearised elsewhere, vs the uncoloured twin; arrow-head '
             'totals split over several response components sharing one design variable with the problem mode left at '
             'its default (bidirectional driver colouring, fwd and rev solves in one compute_totals); histories of 2-4 '
-            'setups of the same Problem with the component sparsity changed in between (same names and sizes); a case is '
+            'setups of the same Problem with the component sparsity changed in between (same names and sizes); partial '
+            'colouring declared on a subset of the inputs next to fd partials with other options, both orders; a case is '
             'non-trivial when distinct')
     assumptions = ['the linear solves that produce the compressed products are replaced by exact matrix products '
                    '(M @ seed); their correctness is property C01',
@@ -338,6 +353,8 @@ class C03(Spec):
             cases.append(multi_case(rng))
         for _ in range(40 if quick else 300):
             cases.append(resetup_case(rng))
+        for _ in range(40 if quick else 300):
+            cases.append(subset_case(rng))
         return cases
 
     def search_gen(self, tier, rng):
